@@ -273,7 +273,12 @@ static void case_mpz_misc(ByteSource& in, CaseInfo& ci) {
       mpz_from_int(z.a, A); bool inplace = in.flag(); mpz_ptr o = inplace ? z.a : z.c; ci.nontrivial = A.size() >= 2;
       ci.d("mpz_mod_ui d=%llu ", (unsigned long long)d); DESC(ci, "n=" + show(A, 64));
       uint64_t r = mpz_mod_ui(o, z.a, d); REQUIRE_WF(o, "mpz_mod_ui"); REQUIRE(int_from_mpz(o) == E && Int::from_u64(r) == E, "mpz_mod_ui(d=%llu): wrong result/return", (unsigned long long)d); break; }
-    case 2: { DivCase c = gen_div(in, ci, false); Int D = in.flag() ? -c.d : c.d; Int Q = in.flag() ? -c.q : c.q; Int N = Q * D;   // exact by construction
+    case 2: { DivCase c = gen_div(in, ci, false);
+      if (in.chance(48)) {   // the inverse-based branch of mpn_divexact (quotient or divisor of INV_DIV_QR_THRESHOLD limbs and more, divisor above 6 limbs) with a quotient whose low limbs are zero
+        bool bigd = in.flag(); size_t big = (size_t)INV_DIV_QR_THRESHOLD + (size_t)in.range(0, 60), small = (size_t)in.range(7, 24); if (big > 6000) big = 6000;
+        Limbs dl = limbs_nz(in, bigd ? big : small), ql = limbs_nz(in, bigd ? (size_t)in.range(1, 8) : big); if (in.flag()) dl[0] |= 1; if (dl[0] == 0) dl[0] = 2;
+        c.d = Int::from_limbs(dl.data(), dl.size()); c.q = Int::from_limbs(ql.data(), ql.size()); if (in.chance(170)) { c.q = ref::shl(c.q, 64 * (uint64_t)in.range(1, 3)); ci.label("divexact:inverse_branch_quotient_low_limbs_zero"); } else ci.label("divexact:inverse_branch"); }
+      Int D = in.flag() ? -c.d : c.d; Int Q = in.flag() ? -c.q : c.q; Int N = Q * D;   // exact by construction
       mpz_from_int(z.a, N); mpz_from_int(z.b, D); unsigned al = in.pick({3, 1, 1}); mpz_ptr o = al == 0 ? z.c : al == 1 ? z.a : z.b; ci.nontrivial = c.d.size() >= 2 || c.q.size() >= 2;
       ci.d("mpz_divexact alias=%u ", al); DESC(ci, "n=" + show(N, 64) + " d=" + show(D, 64));
       mpz_divexact(o, z.a, z.b); REQUIRE_WF(o, "mpz_divexact"); REQUIRE(int_from_mpz(o) == Q, "mpz_divexact (alias %u, |n|=%zu, |d|=%zu limbs): wrong quotient", al, N.size(), D.size());
